@@ -57,6 +57,7 @@ class Ctx:
         self.warnings_seen: list = []
         self.notes: list = []
         self.unwitnessed_reason = None
+        self.positive_vars = set()
 
     # ---- variables ----------------------------------------------------------------
     def new_var(self, name, kind="aux", value=None, origin="") -> Poly:
@@ -95,6 +96,10 @@ class Ctx:
             self.assumptions.append(Assumption("eq", p.real(), tag))
             self.assumptions.append(Assumption("eq", p.imag(), tag))
             return
+        if kind == "gt" and len(p.t) == 1:
+            ((m, cf),) = p.t.items()
+            if len(m) == 1 and m[0][1] == 1 and cf > 0:
+                self.positive_vars.add(m[0][0])
         self.assumptions.append(Assumption(kind, p, tag))
 
     # ---- branching ----------------------------------------------------------------
